@@ -2,19 +2,20 @@
 # Builds the correspondence harness from <repo>'s current working tree (default /repo) with the
 # overlay (nothing is written into the repository). Output: <out> (default /verif/.work/verifharness)
 set -e
+V=$(cd "$(dirname "$0")/.." && pwd)   # the verification tree this script belongs to (a snapshot uses its own sources)
 REPO=${1:-/repo}
-OUT=${2:-/verif/.work/verifharness}
+OUT=${2:-$V/.work/verifharness}
 mkdir -p "$(dirname "$OUT")"
 WORK=$(cd "$(dirname "$OUT")" && pwd)
 OUT="$WORK/$(basename "$OUT")"
 export GOFLAGS=-mod=mod GOPROXY=off
-python3 - "$REPO" "$WORK" <<'PY'
+python3 - "$REPO" "$WORK" "$V" <<'PY'
 import json,os,sys,glob
-repo,work=sys.argv[1],sys.argv[2]
+repo,work,v=sys.argv[1],sys.argv[2],sys.argv[3]
 rep={}
-for f in glob.glob('/verif/harness/verifharness/*.go'):
+for f in glob.glob(v+'/harness/verifharness/*.go'):
     rep[os.path.join(repo,'internal/verifharness',os.path.basename(f))]=f
-for d in glob.glob('/verif/harness/shims/*'):
+for d in glob.glob(v+'/harness/shims/*'):
     pkg=os.path.basename(d).replace('__','/')
     for f in glob.glob(d+'/*.go'):
         rep[os.path.join(repo,pkg,os.path.basename(f))]=f
